@@ -35,7 +35,7 @@ Section Stack.
 
   (* a method bound to `pre` *)
   Definition prepend (pre : args) (fn : cdesc Sigma) : cdesc Sigma :=
-    {| c_iscoro := c_iscoro fn; c_mode := c_mode fn; c_call := fun a k s => c_call fn (pre ++ a) k s;
+    {| c_named := c_named fn; c_iscoro := c_iscoro fn; c_mode := c_mode fn; c_call := fun a k s => c_call fn (pre ++ a) k s;
        c_resume := c_resume fn |}.
 
   (* evaluating `recv.attr( *a, **k )` on the class decorated with for_all_methods(decorator n) *)
